@@ -23,7 +23,8 @@ def run_property(prop: str, tier: str, selftest: bool = True) -> int:
         from .ctx import Ctx
         ctx = Ctx()
         mod = importlib.import_module("rules.%s" % prop)
-        mod.run(ctx, rep, tier)
+        from .runrules import run_module
+        run_module(mod, ctx, rep, tier)
         from . import darule
         darule.apply(ctx, rep)
         rep.extra["analysed"] = {
